@@ -26,6 +26,14 @@ CHECKS = {
             "lists/tuples/sets/dicts): parse verdict == reference verdict, result == input, isinstance == verdict.",
             "Trusted: utmc/refcons.py (documentation-derived); documentation-undecided cases are skipped and counted.",
             "DESIGN.md §3 C02"),
+    "C03": ("bounded-exhaustive product-space exploration with 2-transition chains (parse, re-parse) and a reference "
+            "check of the strict form for lax constraints",
+            "Every successful first parse of the C01 universe (plus every lax constraint of the lax table on the C02 "
+            "value windows) is re-parsed with the same declaration and options; the second parse must succeed and give "
+            "an equal value; on exact domains the output of a lax constraint must satisfy its strict form.",
+            "Trusted: canon()/Python equality, refcons for the strict forms. Two design-level findings (^ and & are not "
+            "idempotent in general) are recorded in known_findings.json.",
+            "DESIGN.md §3 C03"),
     "C04": ("bounded-exhaustive product-space exploration with a deterministic step-budget watchdog; oracle: outcome is "
             "a value or an instance of utype.exc.ParseError",
             "Every constrained/logical/generic/data-class declaration and function context is called with the full "
